@@ -15,6 +15,10 @@ fn cfg(tier: Tier, index: u64) -> HistCfg {
     w.len = 1;
     w.is_empty = 0;
     w.reopen = if index % 5 == 0 { 1 } else { 0 };
+    // counters that wrap: bursts of 2^8 / 2^16 (+-1) identical puts between sync points
+    w.burst = if index % 15 == 7 { 3 } else { 0 };
+    // handle churn incl. dropping every user handle before a database-level sync
+    w.handles = if index % 4 == 2 { 12 } else { 0 };
     let mut c = HistCfg {
         kts: Kt::ALL.to_vec(),
         key: KeyProfile::Medium,
@@ -42,6 +46,7 @@ fn cfg(tier: Tier, index: u64) -> HistCfg {
         phases: false,
         special_keys: false,
         default_table: false,
+        big_table: None,
     };
     rare_regions(&mut c, index);
     if c.prelude != Prelude::None {
